@@ -96,6 +96,10 @@ def values(ctx):
             10 ** 401, [0] * 300, bytes(rng.randrange(256) for _ in range(500)), "x" * 9, "x" * 10, "x" * 11, b"y" * 10,
             b"y" * 11, 12345678901, 123456789012]
     vals += cyclic_values()
+    # text and bytes with characters that codecs treat specially at the edges: byte-order marks, line and paragraph separators,
+    # whitespace, NUL, the last code points of the planes
+    vals += ["\ufeff", "\ufeffhello", "\ufeff\ufeff twice", "a\ufeff", "\ufffe", "\u2028", "\u2029x", "\x85", " lead", "trail ", "\n", "\r\n", "\t", "\x00", "\x00\x00x",
+             "\ud7ff", "\ue000", "\uffff", "\U0010ffff", "\x7f\x80", b"\xef\xbb\xbf", b"\xef\xbb\xbfabc", b"\xff\xfe", b"\xfe\xff\x00", b" ", b"\n", b"\x00"]
     # other built-in and library types at top level (each is an ordinary picklable object: it must come back as itself)
     import collections
     import datetime
